@@ -78,23 +78,23 @@ CHECKS = {
 
 # additions of build rounds 5-7 (appended to the level text of the check)
 EXTRA = {
- "C07": " The usability grid also looks up 256 .. 4096 absent keys per cuckoo filter, so that every bucket of a small table is read.",
+ "C07": " The usability grid also looks up 256 .. 4096 absent keys per cuckoo filter, so that every bucket of a small table is read. Bloom rate cells also at p = 0.51, 0.53, 0.6, 0.75, 0.9 (k clamped to 1).",
  "C20": " Round trips with eight shapes of the hasher type parameter (unit struct = null, newtype, tuple struct, None / Some field, String newtype, unit / newtype enum variants).",
  "C05": " Stage 0, the gap law beyond the enumerable horizon: under a constant unit draw (0.5, 2^-10, 1 - 2^-10, 0.375; k = 1, 3, 16) the sampler is run for 2^22 (thorough 2^27) adds and every gap it draws (skip_until hook) is compared with floor(ln u / ln(1 - k/(i+2))) evaluated in f64 (tolerance 1 + 1e-9 gap); one fixed environment answer per run, every position of the run checked.",
  "C01": " Unions with four fixed right operands are operations of the cuckoo BFS (union-then-delete sequences); Extend == insert loop for the Bloom filter (all sequences to length 4-5 over 4 letters, every split, also after clear); union with an operand of another hasher / other parameters must be rejected (accepted unions are checked for false negatives); single-element cuckoo unions over every bucket x structured fingerprints for 9 width/shape combinations; l_fingerprint = 64 with the wrap-around hash u64::MAX. The real-hasher cuckoo runs are repeated under a method-sensitive hasher (write_u8 .. write_u64, write_usize and write(bytes) each mix in their own tag): the same quantity must be hashed the same way at every site. Bloom unions at bit-array lengths around the 64-bit block boundaries (m = 63 .. 65, 127 .. 129, 192, 256, 1000, 1024; k = 1, 3; empty / sparse / loaded operands in both roles): no element of an operand is lost.",
  "C02": " u8 counters driven to the top of their type (weights 100/150/5/1, every sequence to depth 4): calls may panic once the total no longer fits, calls that return must not underestimate. Real-hasher runs first (default SipHash, 5 shapes, 400 operations each: bounds and add return value). Extend == add loop (all sequences to length 4-5 over 4 letters, every split, also after clear). Long Extend deliveries also with runs of equal adjacent items.",
- "C03": " (4) Exact Poisson-averaged mean of count() for b = 4..6 (thorough ..8) x 20 values of n/m: registers independent under N ~ Poisson(n), exact law of (zero registers, harmonic sum) by convolution, count() evaluated on the real sketch for every pair carrying mass; |mean| <= 1 % + 2/n for n/m >= 3 (0.35 relative_error() + 2/n below) - reads the alpha constants and bias rows of the small precisions at 1e-4 resolution.",
+ "C03": " (4) Exact Poisson-averaged mean of count() for b = 4..6 (thorough ..8) x 20 values of n/m: registers independent under N ~ Poisson(n), exact law of (zero registers, harmonic sum) by convolution, count() evaluated on the real sketch for every pair carrying mass; |mean| <= 1 % + 2/n for n/m >= 3 (0.35 relative_error() + 2/n below) - reads the alpha constants and bias rows of the small precisions at 1e-4 resolution. The canonical sweep continues beyond 50 m on a coarse grid (x 1.19) up to 2^40 distinct elements.",
  "C04": " For tied shapes cdf is also evaluated at every distinct inserted value and compared literally with the empirical CDF. Shapes uniform / normal / ties-10 / cliff additionally with every value multiplied by a power of two up to n*max|v| = 2^1020 and down to max|v| = 2^-1000.",
  "C06": " Operands of another hasher (identical shift table) or with one parameter changed must be rejected by the documented panic, for all five operations; single-element cuckoo right operands over every bucket x structured fingerprints (widths 3..64). A quotient-filter union that returns Ok although both streams exceed the capacity is reported as a C06 violation (fresh filter fed both streams = Full) besides C13's 'Ok beyond capacity'. Bloom unions at m = 63 .. 65, 127 .. 129, 192, 256, 1000, 1024: the bit array equals the one of a filter fed both streams.",
  "C08": " A real-hasher family runs and is judged first (BuildHasherSeeded 0..300 (thorough 1500) x 8 (eps, delta) cells x adversarial heavy-hitter streams x 50 unseen queries: fraction of pairs above eps*N <= delta; a finite family, not the hash space). Constructor corners: 10 epsilons x 20 deltas from the largest double below 1 down to MIN_POSITIVE incl. e^-k +- 1 ulp: documented table shape, at least one row, usable. Three further cells of that family have d = 5, 6, 8 rows (1000 queries per seed) with a heavy-hitter count that puts the unchanged tree at 0.25-0.45 delta: every row beyond the fourth must still cut the failure fraction.",
  "C09": " 12 epsilon corners (just below / at / above 1/k, next to 0 and 1); trees also from counters that saw 1..3 elements and were cleared; width sweep 1..256 (thorough ..1024) by width and by epsilon = 1/width with a generator that keeps one element exactly one occurrence above the window index; a generator that closes every window on an already tracked element. Boundary comparisons are skipped only inside the derived f64 rounding envelope 8*2^-53*max(s,eps)*n. State-dependent thresholds eps + (k + 2^-30)/n, k = 1..6, at every node ((s - eps) n a hair above a whole number: the inclusion bound must be k + 1).",
  "C10": " Extend == add loop (all sequences to length 5-6 over 4 letters, every split, also after clear). Huge k (usize::MAX, /2, /16, 2^48, 2^40; 'every k >= 1'): constructed and fed 7 elements in a child process (an allocation abort is then a verdict, not a crash of the check); iter() must yield every distinct element. Heaps over sketches pre-loaded with counts >= 2^32 (4 patterns x k = 1..3 x every stream to length 6 over 4 letters): min(k, distinct) distinct added letters at every prefix. Quick depth 8 / 10 (was 7 / 9).",
- "C11": " LossyCounter also on streams whose windows close on an already tracked element. ReservoirSampling fed through Extend (announced iterator lengths; fresh, chunked, after clear). T-digest weight modes include 2^-40 (total weight below 1 at every length) and a cycle of 2^-40, 2^40, 0.75; growth is stopped inside the insert loop once 3x the documented size + 64 KiB is exceeded (a digest that stops fusing costs O(n) per insert). Weight mode 1e-320 (every weight subnormal). Lossy counters also through with_epsilon(0.3 / 0.015 / 0.0707) (reciprocal not a whole number); a panic inside a measurement family is a verdict, not a crash.",
+ "C11": " LossyCounter also on streams whose windows close on an already tracked element. ReservoirSampling fed through Extend (announced iterator lengths; fresh, chunked, after clear). T-digest weight modes include 2^-40 (total weight below 1 at every length) and a cycle of 2^-40, 2^40, 0.75; growth is stopped inside the insert loop once 3x the documented size + 64 KiB is exceeded (a digest that stops fusing costs O(n) per insert). Weight mode 1e-320 (every weight subnormal). Lossy counters also through with_epsilon(0.3 / 0.015 / 0.0707) (reciprocal not a whole number); a panic inside a measurement family is a verdict, not a crash. T-digest mode with unit weights on values x 1e305 (the sum of any two overflows).",
  "C12": " Unions with four fixed right operands are operations of the cuckoo BFS; differential oracle 'a failed insert / union is a no-op for every continuation of two further operations' on near-full states of both filters (no state key involved: finds state the BFS key cannot see), 10^7 continuations in quick.",
  "C13": " Real-hasher runs first (default SipHash, 4 shapes x 2 key families: len, Full only at capacity, no false negatives). One-step look-ahead from every arrival at an already known key (tables up to 4 slots quick / 8 thorough).",
  "C14": " Real-hasher runs first (default SipHash, 4 shapes x 2 key families x 2 RNG policies: len, no false negatives, deleting everything stored empties the table). Unions with four fixed right operands are operations of the BFS; one-step look-ahead from every arrival at an already known key for kick budgets <= 1 (quick) / <= 2 (thorough); l_fingerprint = 64 with the wrap-around hash u64::MAX. The real-hasher runs are repeated under a method-sensitive hasher (write_u64 / write_usize / write(bytes) hash differently).",
  "C15": " cdf / quantile as the very first read of a fresh clone equal the same call after count(), bit for bit. Empty digests: quantile at 0, 0.25, 0.5, 1 is NaN and cdf at -inf..+inf is 0. The same trees one level shallower and the n = 100 structured digests with every weight multiplied by 2^-900 and by 2^900; trees with every value multiplied by 2^-900 / 2^900. cdf(quantile(q)) must bracket q to within 5 % of the share of the heaviest centroid (the unchanged tree needs 0). Extreme-range histories: prefixes of 12 values x 2^1022 (max - min overflows f64) for 4 scale functions x 5 (delta, backlog): quantile on a 49-point grid finite, inside [min, max], monotone, end points (cdf not judged at this scale). Two configurations are a known finding (sum overflow of a fused centroid).",
- "C16": " The same trees one level shallower and long histories with every weight multiplied by 2^-900 and by 2^900; trees with every value multiplied by 2^-900 / 2^900. Each of count / sum / mean / min / max as the first read of a fresh copy equals the value read after the others. Histories of finite values x 2^700 with finite weights x 2^400 (every product overflows: sum() = +inf, while count / min / max / is_empty must stay exact). A sample of weight 2^60 at the value 0 followed by 40 unit-weight samples (each below one ulp of the total weight): sum / count / min / max after every insert.",
+ "C16": " The same trees one level shallower and long histories with every weight multiplied by 2^-900 and by 2^900; trees with every value multiplied by 2^-900 / 2^900. Each of count / sum / mean / min / max as the first read of a fresh copy equals the value read after the others. Histories of finite values x 2^700 with finite weights x 2^400 (every product overflows: sum() = +inf, while count / min / max / is_empty must stay exact). A sample of weight 2^60 at the value 0 followed by 40 unit-weight samples (each below one ulp of the total weight): sum / count / min / max after every insert. Histories with deep-subnormal weights (1e-310 .. 3e-310).",
  "C17": " Real-hasher order / repetition invariance first (3000 keys, b = 4, 7, 12). Extend<T> and Extend<&T> == add loop for b in {4, 9, 16} (all sequences to length 4-5 over three elements of one register with three ranks plus one other, every split, also after clear); single extend calls of 1..300 distinct items delivered as Vec / filter over junk (inexact size_hint) / from_fn, for all five Extend structures (C17, C02, C01, C18, C10); whole-register-file sequences for b = 4, 5, 6 (4 orders x 4 rank patterns up to the maximal rank) compared with the specification after every add.",
  "C18": " Extend == add loop for stream 0..n, n <= 4k+6, every split, three scripted RNG policies, fresh and after 4k+3 adds + clear; one-step look-ahead from every arrival at a known key. Huge k (usize::MAX, /2, isize::MAX/4, /8, 2^48, 2^40) x {add, extend, clear + add} with 10 data points, each in a child process (an allocation abort is a verdict, not a crash of the check). Element types (), [u64; 64], String (k = 1, 3, 8; 40 adds, clear, extend).",
  "C19": " clone() and Clone::clone_from (onto an instance of another configuration) copies - targets of another shape with another hasher and with the same hasher - run in lockstep with the original (depth 3 at every node; 300 operations after the 1000-operation histories; 3000 + 2000 well-spread inserts for every T-digest scale function); getters of fresh / cleared instances report the constructor parameters for all nine structures; HyperLogLog b = 4, 5, 6 with every register filled, cleared and re-fed in lockstep with a fresh sketch; every operation of the trees is also executed on an instance that replayed the history without any clone (a structure must not behave differently because copies exist). Read placement: every sequence over the operations and clear() up to depth 5 (cost-scaled, 3 for the largest register files; thorough deeper) without reads and with one full read after each step - the final observations agree (reads are pure; T-digest excepted, its reads merge the backlog). HyperLogLog sketches built by with_registers_and_hash from caller Vecs with spare capacity (0, 1, 40, 2^b), cleared and compared with a fresh sketch.",
